@@ -879,6 +879,7 @@ fn body(run: &Run, replay: Option<&Value>) {
     norm2::gvar_metrics(run);
     norm2::multi_axis(run);
     norm2::avar2_extremes(run);
+    norm2::axis_normalize(run);
     norm2::mvar_metrics(run);
     norm2::index_map_family(run);
     norm2::metric_var_tables(run);
@@ -952,7 +953,7 @@ fn replay_case(run: &Run, case: &Value) {
                 run.violation("ItemVariationStore::compute_delta differs from the exact tent sum", "replayed", case.clone());
             }
         }
-        "metrics_gvar" | "norm_two_axes" | "metrics_mvar" | "index_map" | "metric_var_table" | "norm_avar2_extremes" | "norm_avar2_fixture" => norm2::replay(run, case),
+        "metrics_gvar" | "norm_two_axes" | "metrics_mvar" | "index_map" | "axis_normalize" | "metric_var_table" | "norm_avar2_extremes" | "norm_avar2_fixture" => norm2::replay(run, case),
         k if k.starts_with("norm") || k.starts_with("metrics") || k.starts_with("segment") || k.starts_with("location") => norm::replay(run, case),
         k => println!("replay: unknown kind {k}"),
     }
